@@ -146,22 +146,21 @@ class BatchVolumeSampler(Sampler):
             num_indices = curr_slice.stop - curr_slice.start
             self.__num_batches += math.ceil(num_indices / batch_size)
 
-        self.end_of_volume = iter(end_of_volume[1:])
-        self._next_value = end_of_volume[0]
+        self.end_of_volume = end_of_volume
 
     def __iter__(self):
+        # The end-of-volume bookkeeping is restarted on every iteration; there is none for a rank without volumes.
+        end_of_volume = iter(self.end_of_volume)
+        next_value = next(end_of_volume, None)
         batch = []
         for idx in self.sampler:
             batch.append(idx)
-            if (len(batch) == self.batch_size) or (idx == self._next_value - 1):
+            if (len(batch) == self.batch_size) or (idx == next_value - 1):
                 yield batch
                 batch = []
 
-            if idx == self._next_value - 1:
-                try:
-                    self._next_value = next(self.end_of_volume)
-                except StopIteration:
-                    pass
+            if idx == next_value - 1:
+                next_value = next(end_of_volume, next_value)
 
         if len(batch) > 0:
             yield batch
